@@ -154,6 +154,16 @@ pub fn sample(count: usize, seed: u64, all: bool) -> Value {
             }
         }
     }
+    if !all {
+        // value types (no sub elements): enumeration texts and enumeration-valued attributes with items that exist in some versions only
+        let partial = |items: &[(autosar_data_specification::EnumItem, u32)]| items.iter().any(|(_, m)| bits(*m).len() < 21);
+        let valued: Vec<ElementType> = r.order.iter().copied().filter(|t| t.sub_element_spec_iter().next().is_none()).filter(|t| {
+            matches!(t.chardata_spec(), Some(CharacterDataSpec::Enum { items }) if partial(items))
+                || t.attribute_spec_iter().any(|(_, spec, _)| matches!(spec, CharacterDataSpec::Enum { items } if partial(items)))
+        }).collect();
+        let step = (valued.len() / (count / 5).max(1)).max(1);
+        chosen.extend(valued.into_iter().step_by(step));
+    }
     for t in chosen {
         out.insert(type_key(t), describe(&r, t));
     }
